@@ -14,8 +14,7 @@ ASSUMPTIONS = [
     'the real provider loop runs over the simulated transport; the provider is brought into each waiting state by a '
     'concrete conformant prefix, then receives the hostile bytes, then the peer closes the connection',
     'an A-ABORT is *demanded* only where no decoder could do otherwise: unknown PDU type byte, PDU body shorter than '
-    'the fixed part of its type (not in Sta13, where the association no longer exists and input may be ignored); '
-    'everywhere else either an orderly abort or lenient processing is accepted',
+    'the fixed part of its type; everywhere else either an orderly abort or lenient processing is accepted',
     'everything the provider writes must parse with the independent reference parser vt/refs/ps38.py',
 ]
 
@@ -88,13 +87,7 @@ def unknown_type(t: int, r: int, n: int) -> bool:
     state = fam('state')
     hostile = bytes([t, r]) + n.to_bytes(4, 'big') + b'\x00' * n
     conv, tr = run_hostile(state, hostile)
-    ok = robust(state, conv, tr)
-    if state != 13:
-        ok = ok and aborted(state, conv, tr)
-    else:
-        # the association no longer exists (awaiting close): the provider may answer with A-ABORT or ignore the bytes
-        out = written_after_prefix(state, tr)
-        ok = ok and out is not None and all(p['type'] == 7 for p in out)
+    ok = robust(state, conv, tr) and aborted(state, conv, tr)
     deep(ok and t == 0xFF and n == 3)
     return ok
 
